@@ -18,7 +18,7 @@ SegAssigned == \h00..\h15
 SegImplemented == {\h00, \h01, \h02, \h0B, \h0C, \h0D}
 
 Prior == <<\h00, \h28, \h88, \hA0>>
-Kinds == {"facade_bs0", "opcode_reuse", "opcode_ctor", "opcode_len", "prin_sa", "xcopy_cscd_key", "xcopy_seg_key", "xcopy_cscd_type",
+Kinds == {"facade_bs0", "facade_bs_reset", "opcode_reuse", "opcode_ctor", "opcode_len", "prin_sa", "xcopy_cscd_key", "xcopy_seg_key", "xcopy_cscd_type",
           "xcopy_seg_type", "xcopy_lu_id_type", "tid_isid_without_format", "tid_format_without_isid",
           "tid_consistent"}
 
@@ -33,7 +33,9 @@ SegEither == \h10..\h19 \cup {\hBE, \hBF}
 \* (the property demands a specific refusal of unknown codes; which of the two errors a known but
 \* unimplemented code gets is the library's choice)
 Verdict(r) ==
-    CASE r.k = "facade_bs0" -> IF r.v = 8 THEN "" ELSE "MissingBlocksizeException"
+    \* facade_bs_reset: the facade knew a block size (512) and the caller then set it to 0 (s.blocksize = 0): the
+    \* same verdicts as for a facade that never had one
+    CASE r.k \in {"facade_bs0", "facade_bs_reset"} -> IF r.v = 8 THEN "" ELSE "MissingBlocksizeException"
       [] r.k \in {"opcode_ctor", "opcode_len"} ->
             IF GroupLen(r.v) = Refused THEN "OpcodeException" ELSE ""
       \* one OpCode object used before with the valid code Prior[v \div 256], then re-pointed
